@@ -126,6 +126,8 @@ pub enum Dmg {
     /// `len` bytes from `at` read back as all ones (an erased flash page, a stuck bus): every length,
     /// count and offset field it covers takes its largest value
     Ones(usize, usize),
+    /// the same with all zeros, at byte granularity (ZeroSector only knows 16-byte sectors)
+    Zeros(usize, usize),
 }
 
 pub fn apply(item: &Item, d: &Dmg) -> Vec<u8> {
@@ -148,6 +150,12 @@ pub fn apply(item: &Item, d: &Dmg) -> Vec<u8> {
             let e = (at + len).min(b.len());
             for x in &mut b[at.min(e)..e] {
                 *x = 0xFF;
+            }
+        }
+        Dmg::Zeros(at, len) => {
+            let e = (at + len).min(b.len());
+            for x in &mut b[at.min(e)..e] {
+                *x = 0;
             }
         }
         Dmg::FlipRepaired(bit) => {
@@ -702,6 +710,10 @@ fn run_with(ctx: &mut Ctx, generator: bool) -> R {
         }
         for at in (0..a.saturating_sub(2)).step_by(stride.max(3)) {
             coords.push(Dmg::Ones(at, 3));
+            coords.push(Dmg::Zeros(at, 3));
+        }
+        for at in (4..a).step_by(stride.max(2)) {
+            coords.push(Dmg::Zeros(at, 8));
         }
     }
     if !ctx.is("C05") || thorough {
@@ -748,6 +760,7 @@ fn run_with(ctx: &mut Ctx, generator: bool) -> R {
             Dmg::DoubleFlip(..) => probe("dmg_double_flip"),
             Dmg::ZeroSector(_) => probe("dmg_zero_sector"),
             Dmg::Ones(..) => probe("dmg_all_ones_run"),
+            Dmg::Zeros(..) => probe("dmg_all_zeros_run"),
         }
         match ctx.prop.as_str() {
             "C04" => {
